@@ -283,6 +283,83 @@ func (g *Gen) resultTerms(val ssa.Value, sig *types.Signature) []TV {
 }
 
 func (g *Gen) applyCall(ce callee, c *ssa.CallCommon, val ssa.Value, pos token.Pos, guard string) {
+	pre := copyState(g.cur)
+	g.applyCallInner(ce, c, val, pos, guard)
+	g.keepPrivateCells(pre, ce, c)
+}
+
+// privateCells: locals of fn whose address never leaves fn except as a binding of closures that are only
+// called or deferred in fn itself. No other callee can write such a variable, whatever its (type-based) frame says.
+func (g *Gen) privateCells() map[*ssa.Alloc][]*ssa.MakeClosure {
+	if g.privCells != nil {
+		return g.privCells
+	}
+	g.privCells = map[*ssa.Alloc][]*ssa.MakeClosure{}
+	for _, b := range g.fn.Blocks {
+		for _, in := range b.Instrs {
+			a, ok := in.(*ssa.Alloc)
+			if !ok || isStructT(deref(a.Type())) || isArrayT(deref(a.Type())) {
+				continue
+			}
+			private := true
+			var binds []*ssa.MakeClosure
+			for _, ref := range *a.Referrers() {
+				switch r := ref.(type) {
+				case *ssa.Store:
+					if r.Val == a {
+						private = false
+					}
+				case *ssa.UnOp, *ssa.DebugRef:
+				case *ssa.MakeClosure:
+					for _, u := range *r.Referrers() {
+						switch cu := u.(type) {
+						case *ssa.Defer:
+							if cu.Call.Value != r {
+								private = false
+							}
+						case *ssa.Call:
+							if cu.Call.Value != r {
+								private = false
+							}
+						case *ssa.DebugRef:
+						default:
+							private = false
+						}
+					}
+					binds = append(binds, r)
+				default:
+					private = false
+				}
+			}
+			if private {
+				g.privCells[a] = binds
+			}
+		}
+	}
+	return g.privCells
+}
+
+func (g *Gen) keepPrivateCells(pre map[string]string, ce callee, c *ssa.CallCommon) {
+	for a, binds := range g.privateCells() {
+		own := false
+		for _, mc := range binds {
+			if ce.closure == mc || c.Value == mc {
+				own = true
+			}
+		}
+		if own {
+			continue
+		}
+		h := g.cellHeap(deref(a.Type()))
+		before, after := g.heapIn(pre, h), g.heap(h)
+		if before == after {
+			continue
+		}
+		g.guard(eq("(select "+after+" "+g.v(a)+")", "(select "+before+" "+g.v(a)+")"))
+	}
+}
+
+func (g *Gen) applyCallInner(ce callee, c *ssa.CallCommon, val ssa.Value, pos token.Pos, guard string) {
 	// nil checks on the callee itself
 	if ce.isInvoke {
 		g.nilCheck(g.v(c.Value), c.Value, pos, "call")
